@@ -19,7 +19,7 @@ RULE = ("history: random command trees (vp/gen_cmd.py, depth 2-3, aliases, flag 
         "build() twice on every generated tree.  A case is non-trivial when the history is non-empty and the final "
         "parse enters a subcommand, asks for help/version or fails; distinct = distinct case text.")
 TRUSTED = [
-    "Coq 8.16.1 kernel (coqc); no native_compute; 50 of the 51 theorems C11_* are 'Closed under the global context'; "
+    "Coq 8.16.1 kernel (coqc); no native_compute; 55 of the 56 theorems C11_* are 'Closed under the global context'; "
     "C11_parser_reads_signatures -- whose pinned statement is an equality of FUNCTIONS, parse_loop c' = parse_loop c -- "
     "uses the standard-library axiom FunctionalExtensionality.functional_extensionality_dep (three extensionality steps "
     "over the pointwise lemma C11_parser_reads_signatures_pointwise, which is closed); no other theorem depends on it",
@@ -39,7 +39,8 @@ ASSUMPTIONS = [
     "calls are made on the root Command value only (render_usage on a subcommand obtained through find_subcommand_mut "
     "before the root is built is a call on a different Command value and outside the property)",
     "rendered message text beyond kind / help level / names / version line / usage head is compared on the implementation "
-    "only (direct oracle); the required-arguments part of usage_name is an arbitrary function of the parent's own definition",
+    "only (direct oracle); the required-arguments part of usage_name is get_required_usage_from of the parent on the shared "
+    "requirement graph with the per-argument texts (Arg::stylized, format_group member text) as parameters",
     "whether did_you_mean_flag builds the subcommands of the failing level depends on strsim::jaro, which the shared parser "
     "model does not compute: the theorems hold for both answers (boolean parameter `fires`)",
 ]
@@ -485,7 +486,8 @@ LEVEL_TEXT = ("Machine-checked theorems (Coq 8.16) about a stateful model of one
               "(C11_history_independence_dym); the COMPLETE outcome after propagate_globals, incl. the order of ids(), "
               "equals the fresh one for definitions whose root subcommand names/aliases are distinct (C11_history_outcome); "
               "version line and usage head of every visited level are equal on reused / cloned / fresh "
-              "(C11_history_messages).  Fourth pass: (a) all of these are now closed under the global context: the "
+              "(C11_history_messages; with the real required-arguments part of usage_name, get_required_usage_from of the parent: "
+              "C11_history_messages_usage_name).  Fourth pass: (a) all of these are now closed under the global context: the "
               "congruence of parse_loop, short_loop, parse_short_arg and of the 15 validator functions is proved POINTWISE "
               "(bodies restated with the subcommand-reading calls as parameters, tied to the model by reflexivity, lock-step "
               "tactic), also for arbitrary BinNameBuilt marks (C11_parser_reads_signatures_pointwise, "
@@ -495,16 +497,17 @@ LEVEL_TEXT = ("Machine-checked theorems (Coq 8.16) about a stateful model of one
               "a function of the normal form -- some node of the lazily built tree gets an auto-generated help subcommand "
               "(help_family / quiet_tree), an invariant of every history (C11_family_invariant) -- and OUTSIDE it every "
               "finite history of parses (failing, mutating), renders, clones and build() calls leaves the fresh parser "
-              "result, visited names and error (C11_history_independence_build); the witness of the finding lies inside the "
+              "result, visited names and error (C11_history_independence_build) and the fresh version line / usage head of every "
+              "visited level (C11_history_messages_build); the witness of the finding lies inside the "
               "family and is refuted there (C11_finding_witness_in_family).  The model is tied to clap_builder by running "
               "the extracted model and the real crate on the same generated histories on every check (results and the "
               "observable names / argument ids of every node after every step), and an independent python oracle compares "
               "the reused, fresh, cloned, pre-built and by-value results and rendered messages of the real crate.")
-LEVEL_NOTE = ("51 theorems: 50 closed under the global context; C11_parser_reads_signatures (an equality of functions) keeps "
+LEVEL_NOTE = ("56 theorems: 55 closed under the global context; C11_parser_reads_signatures (an equality of functions) keeps "
               "functional_extensionality_dep, nothing depends on it.  Trusted: Coq kernel, extraction, OCaml driver, Rust "
               "harness, generators, the shared parser model.  Differential only: rendered message text beyond version line / "
-              "usage head (the required-arguments part `mid` of usage_name is an arbitrary function of the parent's own "
-              "definition), the complete outcome and the message lines for histories WITH build() (parser result / names / "
-              "error are proved outside the family), build() inside the family (the finding), whether did_you_mean builds "
+              "usage head (the required-arguments part `mid` of usage_name is modelled on the shared requirement graph with the "
+              "per-argument texts as parameters, C11_history_messages_usage_name; not tied by a stream of its own), the complete outcome after propagate_globals for histories WITH build() (parser result / names / "
+              "error / version line / usage head are proved outside the family: C11_history_independence_build, C11_history_messages_build), build() inside the family (the finding), whether did_you_mean builds "
               "(jaro; both answers covered by the theorems).  Known finding: after build() `help help <sub>` is DisplayHelp "
               "instead of InvalidSubcommand.")
